@@ -5,6 +5,7 @@
 import Gnet.Spec.ReactorSpec
 import Gnet.Proofs.ReactorLife
 import Gnet.Spec.ReactorExample
+import Gnet.Proofs.ReactorRuns
 namespace Gnet.Props.C04
 open Gnet.Reactor
 
@@ -15,6 +16,11 @@ theorem lifecycle (s s' : RState) (toks : List Tok) (hn : NamesNodup s)
   Proofs.ReactorLife.lifecycle s s' toks hn h hl
 
 theorem lifecycle_init (cfg : Cfg) : InvLife { cfg := cfg } := Proofs.ReactorLife.lifecycle_init cfg
+
+/-- the same for whole histories: after ANY number of accepted rounds from the initial state of any configuration -/
+theorem lifecycle_all_histories (cfg : Cfg) (rounds : List (List Tok)) (s' : RState)
+    (h : Proofs.ReactorRuns.acceptRounds { cfg := cfg } rounds = .ok s') : InvLife s' :=
+  (Proofs.ReactorRuns.runs_from_init cfg rounds s' h).2.2.1
 
 /-! Non-vacuity: the recorded history runs through a whole life, OnOpen, OnTraffic, OnClose, after which the descriptor
 is closed; `lifecycle_init` gives the hypothesis for its first round. -/
